@@ -16,6 +16,7 @@ package main
 import (
 	"bytes"
 	"errors"
+	"encoding/json"
 	"fmt"
 	"go/ast"
 	goparser "go/parser"
@@ -375,6 +376,9 @@ var totalDecoders = map[string]func(f Fields) error{
 		if err != nil {
 			return err
 		}
+		if f["acc"] == "0" {
+			return nil
+		}
 		t.IsMark(0)
 		t.IsMark(0xffff)
 		t.Encode()
@@ -526,6 +530,8 @@ func totalAdversary(f Fields) (dec string, b []byte) {
 	switch f["kind"] {
 	case "gdef-alias": // §9 #37
 		return "gdef", totalGdefAliased(num("sets", 20), 0xffff)
+	case "gdef-distinct":
+		return "gdef", totalGdefDistinct(num("sets", 2), 0xffff)
 	case "kern-alias": // §9 #35
 		subs, pairs := num("subs", 300), num("pairs", 300)
 		return "kern", totalKernAliased(subs, pairs, 4+14*subs+6*pairs)
@@ -597,6 +603,60 @@ func totalErrKind(err error) string { return totalErrClass(err) }
 // called once per run with the context, its own generator and the seed pool.
 var totalModelGens = map[string]func(c *Ctx, r *Rng, seeds []totalSeed){}
 
+// totalFactsPath: facts.json written by /verif/extract on this run (before the harness is built).
+func totalFactsPath() string {
+	if p := os.Getenv("VERIF_FACTS"); p != "" {
+		return p
+	}
+	return "/verif/lean/SfntV/Generated/facts.json"
+}
+
+func totalSiteFacts() map[string]map[string]any {
+	data, err := os.ReadFile(totalFactsPath())
+	if err != nil {
+		return nil
+	}
+	var all map[string]json.RawMessage
+	if json.Unmarshal(data, &all) != nil {
+		return nil
+	}
+	out := map[string]map[string]any{}
+	for k, v := range all {
+		if strings.HasPrefix(k, "sites.") {
+			var m map[string]any
+			if json.Unmarshal(v, &m) == nil {
+				out[strings.TrimPrefix(k, "sites.")] = m
+			}
+		}
+	}
+	return out
+}
+
+func totalSiteStatus(name string) string {
+	m := totalSiteFacts()[name]
+	if m == nil {
+		return "no-inventory"
+	}
+	st := fmt.Sprint(m["status"])
+	if st != "match" {
+		detail := fmt.Sprint(m["added"], m["removed"], m["changed"])
+		detail = strings.Map(func(r rune) rune {
+			if r == ' ' || r == '\t' || r == '\n' {
+				return '_'
+			}
+			return r
+		}, detail)
+		if len(detail) > 300 {
+			detail = detail[:300]
+		}
+		return st + ":" + detail
+	}
+	if u, ok := m["without_model_operation"]; ok {
+		return "unmapped:" + strings.ReplaceAll(fmt.Sprint(u), " ", "_")
+	}
+	return "match"
+}
+
 // totalLast holds the measurements of the most recent total.<decoder> execution (the
 // generator runs single-threaded and reads it right after c.Case).
 var totalLast totalOut
@@ -637,6 +697,10 @@ func init() {
 		dname := dname
 		ops["total."+dname] = func(f Fields) string { return totalD(dname, f) }
 	}
+	// the regenerated site inventory of a modelled function against its committed expectation
+	// (lean/SfntV/Tie/<name>.json): a V line, so that a changed/added/removed index, slice, make,
+	// assertion or panic site, or a changed guard, breaks the tie of this property
+	ops["total.sites"] = func(f Fields) string { return totalSiteStatus(f["name"]) }
 	// constructed adversaries named by their parameters (the input is rebuilt from the line alone)
 	ops["total.adv"] = func(f Fields) string {
 		switch f["kind"] {
@@ -1127,6 +1191,29 @@ func totalSeeds() []totalSeed {
 	out = append(out, totalSeed{"classdef", "enc:classdef-2", classdef.Table{5: 1, 6: 1, 7: 1, 100: 2, 101: 2, 300: 3}.Append(nil), ""})
 	out = append(out, totalSeed{"maxp", "enc:maxp-cff", (&maxp.Info{NumGlyphs: 7}).Encode(), ""})
 	out = append(out, totalSeed{"maxp", "enc:maxp-ttf", (&maxp.Info{NumGlyphs: 300, TTF: &maxp.TTFInfo{MaxPoints: 9, MaxZones: 2, MaxComponentDepth: 1}}).Encode(), ""})
+
+	// 3b. cmap tables with the subtable formats the fonts above do not contain (0, 6, 12)
+	f0 := &cmap.Format0{}
+	for i := range f0.Data {
+		f0.Data[i] = byte(i / 2)
+	}
+	f12 := cmap.Format12{}
+	for i := 0; i < 40; i++ {
+		f12[uint32(0x1F600+i)] = glyph.ID(5 + i)
+	}
+	f12[0x41] = 3
+	f6 := []byte{0, 6, 0, 20, 0, 0, 0, 0x41, 0, 5, 0, 1, 0, 2, 0, 0, 0, 4, 0, 5}
+	mk := func(pid, eid int, sub []byte) []byte {
+		b := []byte{0, 0, 0, 1}
+		b = append(b, totalBe16b(pid)...)
+		b = append(b, totalBe16b(eid)...)
+		b = append(b, 0, 0, 0, 12)
+		return append(b, sub...)
+	}
+	out = append(out, totalSeed{"cmap", "enc:cmap-format0", mk(1, 0, f0.Encode(0)), ""})
+	out = append(out, totalSeed{"cmap", "enc:cmap-format6", mk(3, 1, f6), ""})
+	out = append(out, totalSeed{"cmap", "enc:cmap-format6-mac", mk(1, 0, f6), ""})
+	out = append(out, totalSeed{"cmap", "enc:cmap-format12", mk(3, 10, f12.Encode(0)), ""})
 
 	// 4. the repository's fuzz corpora
 	out = append(out, totalCorpusSeeds()...)
@@ -1930,6 +2017,23 @@ func totalGsubLookupsAliased(count, last int) []byte {
 	return b
 }
 
+// totalGdefDistinct: `sets` mark-glyph-set offsets pointing at `sets` DISTINCT 10-byte coverage tables
+// 0..last (what remains of §9 #37 after the per-offset cache: 14 bytes per 65536-glyph set).
+func totalGdefDistinct(sets, last int) []byte {
+	b := []byte{0, 1, 0, 2, 0, 0, 0, 0, 0, 0, 0, 0, 0, 14}
+	b = append(b, 0, 1)
+	b = append(b, totalBe16b(sets)...)
+	for i := 0; i < sets; i++ {
+		b = append(b, totalBe32b(4+4*sets+10*i)...)
+	}
+	for i := 0; i < sets; i++ {
+		b = append(b, 0, 2, 0, 1, 0, 0)
+		b = append(b, totalBe16b(last)...)
+		b = append(b, 0, 0)
+	}
+	return b
+}
+
 // ---------------------------------------------------------------- mutations
 
 func totalMutate(r *Rng, b []byte) ([]byte, string) {
@@ -2238,7 +2342,12 @@ func areaTotal(c *Ctx) {
 	} {
 		adv(a)
 	}
-	adv("kind=gdef-alias sets=20")
+	// decoder alone (acc=0): re-encoding a GDEF whose sets share one 65536-glyph coverage table converts
+	// the shared set once per reference (Encode calls ToTable three times per set), which is accessor cost
+	adv("kind=gdef-alias sets=20 acc=0")
+	adv("kind=gdef-alias sets=2000 acc=0")
+	adv("kind=gdef-distinct sets=2")
+	adv("kind=gdef-distinct sets=20 acc=0")
 	adv("kind=cff-private-size size=268435456")
 	adv("kind=gsub-context-alias rules=6000 glyphs=6000")
 	if c.Tier == "thorough" {
@@ -2267,6 +2376,19 @@ func areaTotal(c *Ctx) {
 			emit("coverage", "structured", "gen", totalGenCoverage(r), "")
 			emit("covset", "structured", "gen", totalGenCoverage(r), "")
 		}
+	}
+
+	// 3a'. site inventories of every modelled function
+	siteNames := []string{}
+	for n := range totalSiteFacts() {
+		siteNames = append(siteNames, n)
+	}
+	sort.Strings(siteNames)
+	for _, n := range siteNames {
+		c.Stat("site-inventory", c.Case(Verdict, "total.sites", "name="+n, true))
+	}
+	if len(siteNames) == 0 {
+		c.Stat("site-inventory", "facts.json-not-found")
 	}
 
 	// 3c. verdict streams of the further checked-index models (harness/area_total_*.go register here)
